@@ -11,6 +11,11 @@
 //	str    var NAME = <any expression containing exactly one string literal>  ->  big-endian integer of its bytes
 //	                   (new(felt.Felt).SetBytes([]byte("invoke")), felt.NewFromBytes[felt.Felt]([]byte(`X`)), ...)
 //	field  the integer value of the key NAME in a composite literal of the file (cbor.DecOptions{MaxArrayElements: n})
+//	bits   type NAME <unsigned integer type>  ->  its width in bits on the 64-bit targets juno supports (uint = 64)
+//	func   func NAME(p T) T { straight-line unsigned arithmetic }  ->  a Gallina function N -> N with the uint64
+//	       wrap-around written out: statements `x := e`, `x = e`, `x++`, `x--`, `if cond { such statements }`
+//	       (no else, no return inside), a final `return e`; e ::= literal | variable | (e) | e (+|-|*|/|%) e with a
+//	       non-zero literal divisor; cond ::= e (<|<=|>|>=|==|!=) e
 //
 // usage: genconsts <repo> <out.v>
 package main
@@ -60,6 +65,9 @@ var specs = []spec{
 	{"deprecatedstate_leafVersion", "core/deprecatedstate/state.go", "leafVersion", "str"},
 	{"state_stateVersion0", "core/state/state.go", "stateVersion0", "str"},
 	{"state_leafVersion0", "core/state/state.go", "leafVersion0", "str"},
+	{"types_VotingPower_bits", "consensus/types/state.go", "VotingPower", "bits"},
+	{"votecounter_f", "consensus/votecounter/vote_counter.go", "f", "func"},
+	{"votecounter_q", "consensus/votecounter/vote_counter.go", "q", "func"},
 }
 
 type fileInfo struct {
@@ -235,6 +243,240 @@ func value(repo string, s spec) (*big.Int, string, error) {
 	return nil, "", fmt.Errorf("unknown kind %s", s.kind)
 }
 
+
+// ---------- function translator (kind "func") ----------
+const w64 = "18446744073709551616"
+
+func trExpr(e ast.Expr, vars map[string]bool) (string, error) {
+	switch x := e.(type) {
+	case *ast.BasicLit:
+		if x.Kind != token.INT {
+			return "", fmt.Errorf("literal %s is not an integer", x.Value)
+		}
+		v, ok := new(big.Int).SetString(strings.ReplaceAll(x.Value, "_", ""), 0)
+		if !ok || v.Sign() < 0 {
+			return "", fmt.Errorf("cannot read integer literal %s", x.Value)
+		}
+		return v.String(), nil
+	case *ast.Ident:
+		if !vars[x.Name] {
+			return "", fmt.Errorf("identifier %s is neither the parameter nor a local variable", x.Name)
+		}
+		return x.Name, nil
+	case *ast.ParenExpr:
+		return trExpr(x.X, vars)
+	case *ast.BinaryExpr:
+		a, err := trExpr(x.X, vars)
+		if err != nil {
+			return "", err
+		}
+		b, err := trExpr(x.Y, vars)
+		if err != nil {
+			return "", err
+		}
+		switch x.Op {
+		case token.ADD:
+			return fmt.Sprintf("((%s + %s) mod %s)", a, b, w64), nil
+		case token.SUB:
+			return fmt.Sprintf("((%s + %s - %s) mod %s)", a, w64, b, w64), nil
+		case token.MUL:
+			return fmt.Sprintf("((%s * %s) mod %s)", a, b, w64), nil
+		case token.QUO, token.REM:
+			if lit, ok := x.Y.(*ast.BasicLit); !ok || lit.Kind != token.INT || b == "0" {
+				return "", fmt.Errorf("divisor must be a non-zero integer literal")
+			}
+			if x.Op == token.QUO {
+				return fmt.Sprintf("(%s / %s)", a, b), nil
+			}
+			return fmt.Sprintf("(%s mod %s)", a, b), nil
+		}
+		return "", fmt.Errorf("operator %s outside the translator's subset", x.Op)
+	}
+	return "", fmt.Errorf("expression %T outside the translator's subset", e)
+}
+
+func trCond(e ast.Expr, vars map[string]bool) (string, error) {
+	if p, ok := e.(*ast.ParenExpr); ok {
+		return trCond(p.X, vars)
+	}
+	b, ok := e.(*ast.BinaryExpr)
+	if !ok {
+		return "", fmt.Errorf("condition %T outside the translator's subset", e)
+	}
+	x, err := trExpr(b.X, vars)
+	if err != nil {
+		return "", err
+	}
+	y, err := trExpr(b.Y, vars)
+	if err != nil {
+		return "", err
+	}
+	switch b.Op {
+	case token.LSS:
+		return fmt.Sprintf("(%s <? %s)", x, y), nil
+	case token.GTR:
+		return fmt.Sprintf("(%s <? %s)", y, x), nil
+	case token.LEQ:
+		return fmt.Sprintf("(%s <=? %s)", x, y), nil
+	case token.GEQ:
+		return fmt.Sprintf("(%s <=? %s)", y, x), nil
+	case token.EQL:
+		return fmt.Sprintf("(%s =? %s)", x, y), nil
+	case token.NEQ:
+		return fmt.Sprintf("(negb (%s =? %s))", x, y), nil
+	}
+	return "", fmt.Errorf("comparison %s outside the translator's subset", b.Op)
+}
+
+// trSimple translates one assignment-like statement into (variable, expression)
+func trSimple(st ast.Stmt, vars map[string]bool, allowDefine bool) (string, string, error) {
+	switch x := st.(type) {
+	case *ast.AssignStmt:
+		if len(x.Lhs) != 1 || len(x.Rhs) != 1 {
+			return "", "", fmt.Errorf("multiple assignment outside the translator's subset")
+		}
+		id, ok := x.Lhs[0].(*ast.Ident)
+		if !ok {
+			return "", "", fmt.Errorf("assignment target outside the translator's subset")
+		}
+		if x.Tok == token.DEFINE && !allowDefine {
+			return "", "", fmt.Errorf("variable definition inside a branch is outside the translator's subset")
+		}
+		var rhs ast.Expr = x.Rhs[0]
+		switch x.Tok {
+		case token.DEFINE, token.ASSIGN:
+		case token.ADD_ASSIGN:
+			rhs = &ast.BinaryExpr{X: id, Op: token.ADD, Y: x.Rhs[0]}
+		case token.SUB_ASSIGN:
+			rhs = &ast.BinaryExpr{X: id, Op: token.SUB, Y: x.Rhs[0]}
+		case token.MUL_ASSIGN:
+			rhs = &ast.BinaryExpr{X: id, Op: token.MUL, Y: x.Rhs[0]}
+		default:
+			return "", "", fmt.Errorf("assignment operator %s outside the translator's subset", x.Tok)
+		}
+		if x.Tok != token.DEFINE && !vars[id.Name] {
+			return "", "", fmt.Errorf("assignment to unknown variable %s", id.Name)
+		}
+		e, err := trExpr(rhs, vars)
+		if err != nil {
+			return "", "", err
+		}
+		vars[id.Name] = true
+		return id.Name, e, nil
+	case *ast.IncDecStmt:
+		id, ok := x.X.(*ast.Ident)
+		if !ok || !vars[id.Name] {
+			return "", "", fmt.Errorf("++/-- target outside the translator's subset")
+		}
+		op := token.ADD
+		if x.Tok == token.DEC {
+			op = token.SUB
+		}
+		e, err := trExpr(&ast.BinaryExpr{X: id, Op: op, Y: &ast.BasicLit{Kind: token.INT, Value: "1"}}, vars)
+		return id.Name, e, err
+	}
+	return "", "", fmt.Errorf("statement %T outside the translator's subset", st)
+}
+
+func trFunc(repo string, s spec) (string, error) {
+	fi, err := load(repo, s.file)
+	if err != nil {
+		return "", err
+	}
+	for _, d := range fi.f.Decls {
+		fd, ok := d.(*ast.FuncDecl)
+		if !ok || fd.Name.Name != s.ident || fd.Recv != nil {
+			continue
+		}
+		if fd.Type.Params == nil || len(fd.Type.Params.List) != 1 || len(fd.Type.Params.List[0].Names) != 1 ||
+			fd.Type.Results == nil || len(fd.Type.Results.List) != 1 {
+			return "", fmt.Errorf("func %s: want exactly one parameter and one result", s.ident)
+		}
+		if fmt.Sprint(fd.Type.Params.List[0].Type) != fmt.Sprint(fd.Type.Results.List[0].Type) {
+			// both must be the same (unsigned) type; its width is checked by the obligation through the `bits` entry
+			return "", fmt.Errorf("func %s: parameter and result types differ", s.ident)
+		}
+		param := fd.Type.Params.List[0].Names[0].Name
+		vars := map[string]bool{param: true}
+		var b strings.Builder
+		fmt.Fprintf(&b, "Definition %s (%s : N) : N :=\n", s.coq, param)
+		body := fd.Body.List
+		if len(body) == 0 {
+			return "", fmt.Errorf("func %s: empty body", s.ident)
+		}
+		for i, st := range body {
+			if i == len(body)-1 {
+				r, ok := st.(*ast.ReturnStmt)
+				if !ok || len(r.Results) != 1 {
+					return "", fmt.Errorf("func %s: the last statement must be `return e`", s.ident)
+				}
+				e, err := trExpr(r.Results[0], vars)
+				if err != nil {
+					return "", fmt.Errorf("func %s: %v", s.ident, err)
+				}
+				fmt.Fprintf(&b, "  %s.", e)
+				break
+			}
+			if ifs, ok := st.(*ast.IfStmt); ok {
+				if ifs.Init != nil || ifs.Else != nil {
+					return "", fmt.Errorf("func %s: if with init/else outside the translator's subset", s.ident)
+				}
+				c, err := trCond(ifs.Cond, vars)
+				if err != nil {
+					return "", fmt.Errorf("func %s: %v", s.ident, err)
+				}
+				if len(ifs.Body.List) != 1 {
+					return "", fmt.Errorf("func %s: if body must be a single assignment", s.ident)
+				}
+				v, e, err := trSimple(ifs.Body.List[0], vars, false)
+				if err != nil {
+					return "", fmt.Errorf("func %s: %v", s.ident, err)
+				}
+				fmt.Fprintf(&b, "  let %s := (if %s then %s else %s) in\n", v, c, e, v)
+				continue
+			}
+			v, e, err := trSimple(st, vars, true)
+			if err != nil {
+				return "", fmt.Errorf("func %s: %v", s.ident, err)
+			}
+			fmt.Fprintf(&b, "  let %s := %s in\n", v, e)
+		}
+		return b.String(), nil
+	}
+	return "", fmt.Errorf("no top-level func %s", s.ident)
+}
+
+func typeBits(repo string, s spec) (*big.Int, error) {
+	fi, err := load(repo, s.file)
+	if err != nil {
+		return nil, err
+	}
+	var res *big.Int
+	ast.Inspect(fi.f, func(n ast.Node) bool {
+		ts, ok := n.(*ast.TypeSpec)
+		if !ok || ts.Name.Name != s.ident {
+			return true
+		}
+		if id, ok := ts.Type.(*ast.Ident); ok {
+			switch id.Name {
+			case "uint", "uint64", "uintptr":
+				res = big.NewInt(64)
+			case "uint32":
+				res = big.NewInt(32)
+			case "uint16":
+				res = big.NewInt(16)
+			case "uint8", "byte":
+				res = big.NewInt(8)
+			}
+		}
+		return true
+	})
+	if res == nil {
+		return nil, fmt.Errorf("type %s is not declared as an unsigned integer type", s.ident)
+	}
+	return res, nil
+}
+
 func main() {
 	if len(os.Args) != 3 {
 		fmt.Fprintln(os.Stderr, "usage: genconsts <repo> <out.v>")
@@ -245,12 +487,30 @@ func main() {
 	b.WriteString("(* GENERATED by harness/cmd/genconsts from the Go sources of the repository under verification on every run.\n")
 	b.WriteString("   Do not edit. One definition per source constant the Coq models depend on; the obligations\n")
 	b.WriteString("   coq/obligations/Cxx_consts.v equate the models' hand-written constants with these. *)\n")
-	b.WriteString("From Coq Require Import ZArith.\n\n")
+	b.WriteString("From Coq Require Import ZArith NArith Bool.\nLocal Open Scope N_scope.\n\n")
 	sorted := append([]spec{}, specs...)
 	sort.SliceStable(sorted, func(i, j int) bool { return sorted[i].coq < sorted[j].coq })
 	failed := 0
 	for _, s := range sorted {
-		v, str, err := value(repo, s)
+		if s.kind == "func" {
+			def, err := trFunc(repo, s)
+			if err != nil {
+				fmt.Fprintf(&b, "(* TRANSLATOR ERROR %s (%s in %s): %s *)\n", s.coq, s.ident, s.file, err)
+				fmt.Fprintf(os.Stderr, "genconsts: %s (%s in %s): %v\n", s.coq, s.ident, s.file, err)
+				failed++
+				continue
+			}
+			fmt.Fprintf(&b, "(* func %s in %s, unsigned 64-bit arithmetic written out *)\n%s\n", s.ident, s.file, def)
+			continue
+		}
+		var v *big.Int
+		var str string
+		var err error
+		if s.kind == "bits" {
+			v, err = typeBits(repo, s)
+		} else {
+			v, str, err = value(repo, s)
+		}
 		if err != nil {
 			// keep the file compilable but make every obligation that mentions the name fail with a readable message
 			fmt.Fprintf(&b, "(* TRANSLATOR ERROR %s (%s in %s): %s *)\n", s.coq, s.ident, s.file, err)
